@@ -64,7 +64,9 @@ theorem C09_checker_sound (a b : Seq) (M : Mat) (gap : Gap) (mode : Mode) (band 
     · intro g hg
       subst hg
       rw [← C08_reported_lin]
-      cases mode <;> exact of_decide_eq_true hu
+      have hu' : sc ≤ optTFast mode (.lin g) M a b := by cases mode <;> exact of_decide_eq_true hu
+      rw [optTFast_eq] at hu'
+      exact hu'
     · intro g hg hm
       subst hg; subst hm
       simpa [formOk] using hp
@@ -73,7 +75,9 @@ theorem C09_checker_sound (a b : Seq) (M : Mat) (gap : Gap) (mode : Mode) (band 
       refine ⟨by cases mode <;> simpa [NoAbut, formOk] using hp, ?_, ?_, ?_⟩
       · intro hm; subst hm
         rw [← C08_reported_aff]
-        exact of_decide_eq_true hu
+        have hu' : sc ≤ optTFast .local (.aff go ge) M a b := of_decide_eq_true hu
+        rw [optTFast_eq] at hu'
+        exact hu'
       · intro hm hn; subst hm
         unfold NoAbut at hn
         simp only [optOk, hn, if_true] at hu
@@ -86,6 +90,12 @@ theorem C09_checker_sound (a b : Seq) (M : Mat) (gap : Gap) (mode : Mode) (band 
         rw [optAffAbutFreeT_eq] at this
         exact ⟨this, optAffAbutFree_le_lin M go ge a b⟩
   · simp at h
+
+/-- the bound the checker evaluates (`optTFast`: the local tables are built once, row by row) is C08's `optT`,
+i.e. the true optimum by `C08_reported_lin/aff` -/
+theorem C09_checker_bound_is_optT (mode : Mode) (gap : Gap) (M : Mat) (a b : Seq) :
+    optTFast mode gap M a b = optT mode gap M a b :=
+  optTFast_eq mode gap M a b
 
 /-! ## Never above the optimum of the unrestricted problem (linear penalties; corollaries of `C08_upper_*`) -/
 
